@@ -9,14 +9,18 @@ case that the interpolant takes the asserted values and that the documented clos
 divisor is that product.  The harness calls the real BoundaryConstraints::new for 2-4 permutations of
 the assertion lists, matches every real constraint to the assertion with its column whose steps are
 the zero set of the group's divisor over the whole trace domain, and compares values.  What depends on
-the coefficient assignment is recorded and validated by TLC with spec/air/TraceBoundary.tla."""
+the coefficient assignment is recorded and validated by TLC with spec/air/TraceBoundary.tla: the
+assignment per ordering, every real group's evaluate_at, and the composition trace the PROVER's
+DefaultConstraintEvaluator produces (single-value, small-polynomial and large-polynomial constraint
+tables of prover/src/constraints/evaluator/boundary.rs) for an Air whose transition constraints vanish
+identically, over a TLC-defined execution trace."""
 import json, os, re, collections
 import vf, airalglib as al
 
 META = dict(
     technique="TLA+ definitions of boundary constraints over toy prime fields: TLC computes complete expected values (Generate->Replay on the real BoundaryConstraints::new through AirContext over toy fields) and validates the recorded coefficient assignments and group evaluations (Record->Validate, TraceBoundary.tla)",
-    text="Every non-overlapping pair of assertion shapes at trace length 8 over F_97 (one column, two columns, main/auxiliary), every shape at length 16, seeded sets of up to 8+4 assertions at lengths 16/32 over F_257/F_193 and sequences of 64..256 values with zero and non-zero first step over F_40961 (L = 128..512): each real constraint evaluates to zero at g^s exactly on the asserted value (all 97 field values for P = 97, 8-11 candidates otherwise, base and extension trace values), each group divisor has the asserted points as its exact zero set over the whole trace domain, degree = number of asserted steps, and the TLC-computed values on the LDE coset and at out-of-domain points; constraint values at out-of-domain points equal t - b(x). For 2-4 orderings of each list the assertion -> coefficient assignment read from cc() is a bijection and identical, and every group's evaluate_at equals SUM cc*(state[col]-b(x))/Z(x) as validated by TLC.",
-    note="Toy fields stand in for the production fields. Which coefficient an assertion receives is not fixed by the property and not gated (only bijectivity and order independence are). The byte-identity of whole proofs under permuted assertion lists is the end-to-end half of the property and belongs to the Determinism engine (C06/C01 group); the prover's private evaluator tables (SmallPoly/LargePoly constraints) are reached only end to end (C01).",
+    text="Every non-overlapping pair of assertion shapes at trace length 8 over F_97 (one column, two columns, main/auxiliary), every shape at length 16, seeded sets of up to 8+4 assertions at lengths 16/32 over F_257/F_193 and sequences of 64..256 values with zero and non-zero first step over F_40961 (L = 128..512): each real constraint evaluates to zero at g^s exactly on the asserted value (all 97 field values for P = 97, 8-11 candidates otherwise, base and extension trace values), each group divisor has the asserted points as its exact zero set over the whole trace domain, degree = number of asserted steps, and the TLC-computed values on the LDE coset and at out-of-domain points; constraint values at out-of-domain points equal t - b(x). For 2-4 orderings of each list the assertion -> coefficient assignment read from cc() is a bijection and identical, and every group's evaluate_at equals SUM cc*(state[col]-b(x))/Z(x) as validated by TLC; the prover's constraint evaluator (DefaultConstraintEvaluator over DefaultTraceLde, transition constraints identically zero) returns SUM_a cc_a (T_col(x)-b_a(x))/Z_a(x) at every point of the constraint evaluation domain for L <= 32 and at 12 sampled points for the long sequences (release builds).",
+    note="Toy fields stand in for the production fields. Which coefficient an assertion receives is not fixed by the property and not gated (only bijectivity and order independence are). The byte-identity of whole proofs under permuted assertion lists is the end-to-end half of the property and belongs to the Determinism engine (C06/C01 group). The prover's evaluator is exercised in release builds only (its degree validation of the all-zero transition constraints is a debug assertion).",
     design="7/C22")
 
 
@@ -66,7 +70,8 @@ def events_of(scenarios, obs):
         ev.append({"P": sc["P"], "d": sc["d"], "n": len(rows), "cc": sc["cc"],
                    "seg": [0] * len(sc["main"]) + [1] * len(sc["aux"]),
                    "steps": [r["steps"] for r in rows], "num": [r["num"] for r in rows], "z": [r["zx"] for r in rows],
-                   "assign": ob["assign"], "groups": [{"members": g["members"], "vals": g["vals"]} for g in ob["groups"]]})
+                   "assign": ob["assign"], "groups": [{"members": g["members"], "vals": g["vals"]} for g in ob["groups"]],
+                   "cnum": [r["cnum"] for r in rows], "cz": [r["zc"] for r in rows], "comp": ob.get("comp", [])})
         idx.append(o["i"])
     return ev, idx
 
@@ -107,7 +112,8 @@ def validate(ck, scenarios, events, idx, name="trace"):
         cur = cur[k:]
     ck.traces += len(events)
     ck.part("validate:" + name, events=len(events), rejected=rejected,
-            permutations=sum(len(e["assign"]) for e in events), groups=sum(len(e["groups"]) for e in events))
+            permutations=sum(len(e["assign"]) for e in events), groups=sum(len(e["groups"]) for e in events),
+            composition_values=sum(len(e["comp"]) for e in events))
 
 
 def run_all(ck, binary, sc, label="serial"):
